@@ -94,7 +94,11 @@ def prefix(tokeniser: 'Tokeniser') -> IPRange:
 def path_information(tokeniser: 'Tokeniser') -> PathInfo:
     pi = tokeniser()
     if pi.isdigit():
-        return PathInfo.make_from_integer(int(pi))
+        number = int(pi)
+        # a path identifier is 4 octets (RFC 7911): make_from_integer keeps the low 32 bits
+        if number > 0xFFFFFFFF:
+            raise ValueError('invalid path-information {} (larger than 4 bytes)'.format(pi))
+        return PathInfo.make_from_integer(number)
     return PathInfo.make_from_ip(pi)
 
 
